@@ -116,6 +116,38 @@ def c10step (_ : Unit) (op : String) (impl : String) : Unit × String :=
                     else if impl == want then "ok" else s!"bad:range-query-exactness expected {want}")
             | _ => ("panic", "na")
         | _, _ => ("bad-op", "na")
+    | ["dateq", mn, mx, im, iM, vs] =>
+        -- instants are int64 nanoseconds; "-" = the zero time = an unbounded end (DateRangeQuery.parseEndpoints)
+        let pa : Option (Option I64) := if mn == "-" then some none else (parse64 mn).map some
+        let pb : Option (Option I64) := if mx == "-" then some none else (parse64 mx).map some
+        match pa, pb with
+        | some a?, some b? =>
+            let incMin := im == "true"; let incMax := iM == "true"
+            let vals := (vs.splitOn ",").filterMap parse64
+            let negInf : I64 := 0xfff0000000000000#64
+            let posInf : I64 := 0x7ff0000000000000#64
+            -- parseEndpoints: Int64ToFloat64 of the nanoseconds (translated code), ±Inf for an absent end
+            let fa := match a? with | some a => BlugeGen.C10.Int64ToFloat64 a | none => negInf
+            let fb := match b? with | some b => BlugeGen.C10.Int64ToFloat64 b | none => posInf
+            match BlugeGen.C10.numericRangeBounds fa fb incMin incMax 0#64 with
+            | .ok (lo, hi) =>
+                let ms := vals.map fun v => rangeMatches 2000000 lo hi v
+                let m := if ms.any (·.isNone) then "diverges" else String.ofList (ms.map fun o => if o == some true then '1' else '0')
+                -- specification: the instant lies in the interval, compared as integers
+                let want := String.ofList (vals.map fun v =>
+                  let x := v.toInt
+                  let okLo := match a? with | none => true | some a => if incMin then a.toInt ≤ x else a.toInt < x
+                  let okHi := match b? with | none => true | some b => if incMax then x ≤ b.toInt else x < b.toInt
+                  if okLo && okHi then '1' else '0')
+                let infEnd := (a?.isSome && fa == negInf) || (b?.isSome && fb == posInf)
+                let brs := " br=dateq" ++ (if incMin != incMax then ",dateq-asymmetric-ends" else "")
+                            ++ (if a?.isNone || b?.isNone then ",dateq-unbounded-end" else "")
+                (m, if impl == "diverges" then "bad:range-enumeration-exceeds-2000000-steps"
+                    else if impl == want then "ok" ++ brs
+                    else if infEnd then s!"bad:date-end-point-with-infinity-image-treated-as-unbounded expected {want}"
+                    else s!"bad:date-range-query-exactness expected {want}")
+            | _ => ("panic", "na")
+        | _, _ => ("bad-op", "na")
     | ["il", a, b] => match parse64 a, parse64 b with
         | some x, some y => (both (hex64 (BlugeGen.C10.Interleave x y)) (hex64 (interleave x y)), "ok")
         | _, _ => ("bad-op", "na")
